@@ -328,6 +328,21 @@ impl Store {
         }
         Ok(())
     }
+
+    /// Verification hook H6: store an entry exactly as the sync code does after validation
+    /// (`ranger::Store::put` on the document's `StoreInstance`: prefix check, prefix pruning,
+    /// write), without opening a replica and without validating the entry. Lets the harness
+    /// populate documents and authors whose ids are hand-picked bytes (neighbours in byte order),
+    /// which no signing key produces. Returns the number of pruned entries, or `None` if a newer
+    /// entry exists.
+    pub fn verif_put_unvalidated(&mut self, entry: crate::SignedEntry) -> Result<Option<usize>> {
+        use crate::ranger::{InsertOutcome, Store as _};
+        let mut instance = StoreInstance::new(entry.namespace(), self);
+        Ok(match instance.put(entry)? {
+            InsertOutcome::Inserted { removed } => Some(removed),
+            InsertOutcome::NotInserted => None,
+        })
+    }
 }
 
 type PeersIter = std::vec::IntoIter<PeerIdBytes>;
